@@ -71,6 +71,7 @@ type c14Model struct {
 }
 
 type c14Interp struct {
+	noCallback   bool
 	unknowns     int // calls of the Unknown callback (unknown = warning)
 	wantUnknowns int
 	p            *prolog.Interpreter
@@ -98,8 +99,8 @@ func (c14) Exec(r *kit.Run) {
 			created++
 		} else {
 			op.I = g.Choose(created)
-			kinds := []string{"assert", "retract", "op", "flag", "conv", "consult", "write-user", "write-cur", "out-alt", "out-user", "intern", "cur-open", "cur-step", "cur-close", "read-input", "cur-open-flags", "bad-load", "unknown-warn"}
-			op.Op = kinds[g.Weighted(5, 2, 5, 4, 3, 2, 4, 4, 1, 1, 2, 2, 6, 1, 2, 2, 2, 2)]
+			kinds := []string{"assert", "retract", "op", "flag", "conv", "consult", "write-user", "write-cur", "out-alt", "out-user", "intern", "cur-open", "cur-step", "cur-close", "read-input", "cur-open-flags", "bad-load", "unknown-warn", "assert-te"}
+			op.Op = kinds[g.Weighted(5, 2, 5, 4, 3, 2, 4, 4, 1, 1, 2, 2, 6, 1, 2, 2, 2, 2, 2)]
 			switch op.Op {
 			case "assert":
 				op.Arg = fmt.Sprintf("t%d", n)
@@ -178,6 +179,7 @@ func (c14) Exec(r *kit.Run) {
 			"findall(X, fact(X), L)",
 			"current_char_conversion('α', A), current_char_conversion('β', B), current_char_conversion('γ', C)",
 			"catch(findall(X, who(X), L), _, L = none)",
+			"catch(findall(X, clause(term_expansion(X, _), _), L), _, L = none)",
 			"findall(P-S-N, current_op(P, S, N), Tmp), length(Tmp, N)", // (the list itself is in map order: only its length)
 		} {
 			got, err := ask(it, q)
@@ -204,10 +206,14 @@ func (c14) Exec(r *kit.Run) {
 			} else {
 				it.p = prolog.New(strings.NewReader("abc"), it.out)
 			}
-			it.p.Unknown = func(name engine.Atom, _ []engine.Term, _ *engine.Env) {
-				if name.String() == "zz_undefined_c14" {
-					it.unknowns++
+			if op.I%2 == 0 {
+				it.p.Unknown = func(name engine.Atom, _ []engine.Term, _ *engine.Env) {
+					if name.String() == "zz_undefined_c14" {
+						it.unknowns++
+					}
 				}
+			} else {
+				it.noCallback = true // the library's own default must do, in every interpreter
 			}
 			fsys := kit.NewSimFS(r, r.Tape.Lane("dev:fs"))
 			fsys.Files["lib.pl"] = []byte(fmt.Sprintf("who(i%d).\nshared(common).\n", op.I))
@@ -290,6 +296,10 @@ func (c14) Exec(r *kit.Run) {
 				goal = "consult(lib)"
 				m.who = fmt.Sprintf("i%d", op.I)
 				mark("who", op.I)
+			case "assert-te":
+				// a clause for a hook predicate that the library itself knows about (the loader looks it up by name): it
+				// belongs to this interpreter like any other clause. It matches nothing that is ever loaded here
+				goal = fmt.Sprintf("assertz(term_expansion(te_i%d_%d, x))", op.I, n)
 			case "unknown-warn":
 				// every interpreter reports the unknown procedures IT meets, whatever the others have met already
 				goal = "set_prolog_flag(unknown, warning), \\+ zz_undefined_c14(1, 2)"
@@ -300,7 +310,9 @@ func (c14) Exec(r *kit.Run) {
 						c.stale = true
 					}
 				}
-				it.wantUnknowns++
+				if !it.noCallback {
+					it.wantUnknowns++
+				}
 			case "bad-load":
 				// a text that is abandoned with clauses read but not installed: it defines nothing here (C20) and, above all,
 				// nothing anywhere else, now or at anybody's next load
